@@ -1160,7 +1160,22 @@ def mutations(bases):
             f0 = _get_field(base, path)
             tys = sexp(f0['ty'])
             where = nm + ' field ' + '.'.join(str(x) for x in path[1:])
-            for metas, rule in (
+            # `skip` next to EVERY non-empty combination of the four overrides it conflicts with (a check that combines the
+            # overrides with xor / an early `else` refuses each alone and lets a pair through)
+            combos = []
+            for mask in range(1, 16):
+                ms = ['skip']
+                if mask & 1:
+                    ms.append('(serwith crate::withfns::any_ser %s)' % tys)
+                if mask & 2:
+                    ms.append('(dewith crate::withfns::any_de %s)' % tys)
+                if mask & 12:
+                    ms.append('(schema %d %s)' % (1 if mask & 4 else 0, '(wf 1 1)' if mask & 8 else 'none'))
+                if bin(mask).count('1') >= 2:
+                    combos.append((ms, 'skip-conflict'))
+                    if mask in (3, 12, 15):
+                        combos.append((ms[1:] + ['skip'], 'skip-conflict'))       # skip written last
+            for metas, rule in tuple(combos) + (
                     (['skip', '(serwith crate::withfns::any_ser %s)' % tys], 'skip-conflict'),
                     (['skip', '(dewith crate::withfns::any_de %s)' % tys], 'skip-conflict'),
                     (['(serwith crate::withfns::any_ser %s)' % tys, '(bound 1 0)', 'skip'], 'skip-conflict'),
